@@ -149,6 +149,18 @@ def main(tier, seed):
     for i in range(n_codec):
         p = rpoint(rng, reserved_ok=(i % 5 == 0))
         compact = rng.random() < 0.5
+        if i % 6 == 1:
+            # a tag VALUE that is, letter for letter, a key CELL of this very row (a prefixed field or tag key of the point, in either prefix style; a bare
+            # prefix): values sit in value positions - a decoder that looks cells up by their text takes the wrong one.  (A private stream: the draws above
+            # stay what they were.)
+            r2 = random.Random(seed * 100003 + i)
+            own = list(p["fields"]) + list(p["tags"]) + [""]
+            val = r2.choice(["_field_", "f_", "_tag_", "t_"] if r2.random() < 0.3 else (["f_", "t_"] if compact else ["_field_", "_tag_"])) + r2.choice(own[:1] + own)
+            if not p["fields"]:
+                p["fields"] = {val.split("_")[-1] or "v": 1.5}
+            p["tags"][r2.choice(list(p["tags"]) + ["src", "zz"])] = val
+            p["tags"] = dict(sorted(p["tags"].items()))
+            stats["tag_values_that_look_like_key_cells"] = stats.get("tag_values_that_look_like_key_cells", 0) + 1
         rp = M.real_point(tf, dict(p, dt=M.dt_of(p["time"])))          # the codec sees UTC-normalised times (insert normalises)
         row = list(rp._serialize_to_list(compact_key_prefixes=compact))
         try:
